@@ -6,6 +6,7 @@ import (
 	jlib "github.com/jsightapi/jsight-schema-go-library"
 	"github.com/jsightapi/jsight-schema-go-library/formats/json"
 	"github.com/jsightapi/jsight-schema-go-library/notations/jschema"
+	"github.com/jsightapi/jsight-schema-go-library/rules/enum"
 	"github.com/jsightapi/jsight-schema-go-library/zzverif/gen"
 	"github.com/jsightapi/jsight-schema-go-library/zzverif/v"
 )
@@ -31,7 +32,28 @@ func commentText() []byte {
 // c13Base: an object with a ruled scalar and an array, or a ruled scalar root.
 func c13Base() *gen.Ex {
 	rich := v.Param("rich", 0) != 0
-	switch v.Choose(0, 2) {
+	switch v.Choose(0, 3) {
+	case 3:
+		// a rule object that ends in a reference, a nested rule-set or a list (the scanner tells the end of the
+		// rule object from what lies on its stack), alone or followed / preceded by another rule, as a property
+		r := []gen.Rule{
+			{Name: "enum", Value: bs("@sizes")},
+			{Name: "type", Value: bs(`"@t"`)},
+			{Name: "or", Value: bs(`[{type: "integer"}, {type: "string"}]`)},
+			{Name: "or", Value: bs(`["@t", "integer"]`)},
+			{Name: "enum", Value: bs(`["S", "M"]`)},
+		}[v.Choose(0, 4)]
+		a := &gen.Ex{Kind: gen.KStr, Lit: bs(`"S"`), Rules: []gen.Rule{r}}
+		switch v.Choose(0, 2) {
+		case 1:
+			a.Optional = 1 // written before the specific rules
+		case 2:
+			a.Rules = append(a.Rules, gen.Rule{Name: "nullable", Value: bs("true")})
+		}
+		if v.Choose(0, 1) == 1 {
+			a.Note = bs("a note")
+		}
+		return &gen.Ex{Kind: gen.KObj, Keys: [][]byte{bs("a"), bs("b")}, Kids: []*gen.Ex{a, {Kind: gen.KInt, Lit: bs("1")}}}
 	case 0:
 		e, _ := c04Leaf(true)
 		return e
@@ -175,6 +197,11 @@ func ZZC13Schema() {
 	v.Observe("respelled", t2)
 	s1 := jschema.New("s", t1)
 	s2 := jschema.New("s", t2)
+	for _, s := range []*jschema.Schema{s1, s2} {
+		// referenced by some base schemas; unused otherwise
+		_ = s.AddRule("@sizes", enum.New("@sizes", `["S", "M"]`))
+		_ = s.AddType("@t", jschema.New("@t", `"S"`))
+	}
 	e1, e2 := s1.Check(), s2.Check()
 	v.Assert((e1 == nil) == (e2 == nil), "C13/check-verdict-changes-with-spelling")
 	if e1 != nil || e2 != nil {
